@@ -89,9 +89,16 @@ def _func_loop(part, aioftp, flavour, base, base_path, user, strings):
         # a real Connection object, reused for all path strings of this cwd like a live session would
         conn = aioftp.Connection(current_directory=pathlib.PurePosixPath(cwd), user=user)
         for s in strings:
-            real, virt = aioftp.Server.get_paths(conn, s)
             part.evaluations += 1
             want = M.resolve(cwd, s)
+            try:
+                real, virt = aioftp.Server.get_paths(conn, s)
+            except Exception as exc:
+                # every client-supplied string resolves to *some* location inside the base directory
+                part.violation({"kind": "path resolution raised " + type(exc).__name__, "flavour": flavour},
+                               {"base": base, "cwd": cwd, "path": s, "exception": repr(exc)[:200], "resolver": want},
+                               replay={"func": [flavour, base, cwd, s]})
+                continue
             vs = str(virt)
             ok_virtual = vs == want
             reset = vs == "/" and real == base_path
@@ -124,7 +131,7 @@ def func_items(tier):
 
 # -- wire level ------------------------------------------------------------
 WTREE = {"a": {"b": {"c": {}}, "f": b"af"}, "b": {}, "f": b"ff"}
-WSEGS = ["a", "b", "..", ".", "", "...", "f"]
+WSEGS = ["a", "b", "..", ".", "", "...", "f", " a", " .."]       # the last two: names that begin with a blank
 WVERBS = ["CWD", "MKD", "RMD", "MLSD", "LIST", "MLST", "RNFR", "RNTO", "DELE", "STOR", "APPE", "RETR"]
 WCWD_HISTS = [[], ["CWD a"], ["CWD a/b"], ["CWD a/b/c"], ["CWD a/b", "CDUP"], ["CWD b", "CWD ../a/b/c", "CDUP"]]
 
